@@ -87,7 +87,7 @@ fn reply_strategy(allow_other_key: bool) -> impl Strategy<Value = Reply> {
         .prop_map(|(peer, ver, other_key)| Reply { peer, ver, other_key })
 }
 
-fn case_strategy() -> BoxedStrategy<Case> {
+pub fn case_strategy() -> BoxedStrategy<Case> {
     let class = prop_oneof![4 => Just(Class::Chunk), 2 => Just(Class::Tx), 1 => Just(Class::Reg), 2 => Just(Class::Pad)];
     class
         .prop_flat_map(|class| {
@@ -216,7 +216,7 @@ thread_local! {
     static SIM: std::cell::RefCell<Option<std::mem::ManuallyDrop<DriverSim>>> = const { std::cell::RefCell::new(None) };
 }
 
-fn check(case: &Case, ctx: &mut Ctx) {
+pub fn check(case: &Case, ctx: &mut Ctx) {
     // one client driver per worker thread, reused: every case leaves it without pending queries
     let mut sim = SIM
         .with(|s| s.borrow_mut().take())
@@ -482,5 +482,6 @@ pub fn run(cfg: RunCfg) {
         "non-trivial: >=2 versions seen, or a duplicate peer, or the terminator arrives before quorum; distinct by whole case",
         case_strategy, check
     );
+    vh_core::fuzz_section!(rep, "quorum", case_strategy, check, "sec_store", "store", 150_000, 240, 8);
     rep.finish();
 }
